@@ -162,6 +162,9 @@ def to_string(ctx, args, st):
     if isinstance(v, Int) and v.concrete() is not None: return ret(st, StrV(str(v.concrete()), 'String'))
     if isinstance(v, Int): return ret(st, StrV((), 'String', {'name': 'to_string', 'parts': (('disp', 'display', repr(v)),), 'of': v}))
     if isinstance(v, StrV): return ret(st, v.retag('String'))
+    if isinstance(v, Char):
+        cv = v.concrete()
+        return ret(st, StrV((cv if cv is not None else v.e,), 'String'))
     if isinstance(v, Bool) and v.concrete() is not None: return ret(st, StrV('true' if v.concrete() else 'false', 'String'))
     if isinstance(v, (Bool, Float, Char)) or isinstance(v, Adt):
         return ret(st, StrV((), 'String', {'name': 'to_string', 'parts': (('disp', 'display', repr(v)),), 'of': v}))
